@@ -382,15 +382,16 @@ structure Fold where
 deriving Repr, DecidableEq, Inhabited, BEq
 
 /-- `findTransactionFolds`. -/
-def transactionFolds (fx : Fixes) (j : Journal) : List Fold :=
-  j.transactions.filterMap fun tx =>
-    if tx.postings.isEmpty then none
-    else
-      let s := m1 tx.range.start.line
-      let e := m1 tx.range.stop.line
-      -- fix-fold-ranges.diff: the token after the transaction starts a line of its own
-      let e := if fx.fold && tx.range.stop.col == 1 && e > s then e - 1 else e
-      if e > s then some ⟨s, e, false⟩ else none
+def txFold (fx : Fixes) (tx : Transaction) : Option Fold :=
+  if tx.postings.isEmpty then none
+  else
+    let s := m1 tx.range.start.line
+    let e := m1 tx.range.stop.line
+    -- fix-fold-ranges.diff: the token after the transaction starts a line of its own
+    let e := if fx.fold && tx.range.stop.col == 1 && e > s then e - 1 else e
+    if e > s then some ⟨s, e, false⟩ else none
+
+def transactionFolds (fx : Fixes) (j : Journal) : List Fold := j.transactions.filterMap (txFold fx)
 
 /-- `unicode.IsSpace`. -/
 def isSpaceGo (c : Char) : Bool :=
